@@ -71,9 +71,14 @@ def atom(r, st, f):
         opts += [("cls", "[ab]"), ("cls", "[^a]"), ("cls", "\\w"), ("cls", "[b-c]"), ("cls", "\\d")]
         if f.casei_alpha:
             opts += [("cls", "[aB]"), ("cls", "[A-B]")]
+    if f.classes:
+        # single-character escapes (the parser's escape table) - literals of one character
+        opts += [("cls", r.choice(["\\n", "\\t", "\\r", "\\f", "\\v", "\\a"] + (["\\e", "\\ "] if f.fancy else [])))]
     opts += [("assert", "^"), ("assert", "$")]
     if f.wordb:
         opts += [("assert", "\\b"), ("assert", "\\B")]
+        if f.fancy:
+            opts += [("assert", r.choice(["\\<", "\\>"]))]
     if f.fancy:
         if f.keepout:
             opts += [("K",)]
